@@ -8,6 +8,7 @@ IDS=${@:-$(ls seeded | grep -v INDEX)}
 [ -z "$(git -C /repo status --short)" ] || { echo "/repo working tree is not clean"; exit 2; }
 bad=0
 for id in $IDS; do
+  if python3 -c "import json,sys;sys.exit(0 if json.load(open('seeded/$id/meta.json')).get('obsolete_since') else 1)"; then echo "$id: skipped (obsolete, see meta.json)"; continue; fi
   props=$(python3 -c "import json;print(' '.join(json.load(open('seeded/$id/meta.json')).get('caught_by',[])))")
   if ! git -C /repo apply /verif/seeded/$id/patch.diff 2>/dev/null; then echo "$id: patch does not apply"; bad=1; continue; fi
   for p in $props; do
